@@ -37,6 +37,7 @@ inductive HOp where
   | transmit (w : String) (b : Nat)
   | events (evs : List Event)
   | chain (evs : List Event) (look : Nat)   -- emitted on chain: returned by the next `look` polls, confirmations growing
+  | perr (mode : String) (n : Nat)          -- the provider answers the next `n` polls with an error
   | restart
   | acceptReport (ups : List (String × Nat))
   | transmitReport (ups : List (String × Nat))
@@ -85,6 +86,7 @@ def topOf (ids : Array String) (j : Json) : R TOp := do
     | "transmit" => pure (HOp.transmit (← asStr (fieldD j "w" (.str ""))) (← natF j "b"))
     | "events" => pure (HOp.events (← listOf eventOf (fieldD j "evs" .null)))
     | "chain" => pure (HOp.chain (← listOf eventOf (fieldD j "evs" .null)) (← asNat (fieldD j "look" (.num 1))))
+    | "perr" => pure (HOp.perr (← asStr (fieldD j "mode" (.str "plain"))) (← asNat (fieldD j "look" (.num 1))))
     | "restart" => pure HOp.restart
     | "acceptReport" => pure (HOp.acceptReport (← listOf upOf (fieldD j "ups" .null)))
     | "transmitReport" => pure (HOp.transmitReport (← listOf upOf (fieldD j "ups" .null)))
@@ -144,7 +146,9 @@ structure Eng where
   unknownVids : List String := []              -- events once skipped because no record existed
   start    : Nat                  -- start time of the running instance
   nextPoll : Nat
-  polls    : List (Nat × Nat)     -- derived polls (time, #events), newest first
+  polls    : List (Nat × Nat × String)  -- derived polls (time, #events, error kind), newest first
+  errMode  : String := ""
+  errLeft  : Nat := 0
   tags     : List String
   agree    : Bool := true
   specM    : Bool := true
@@ -181,6 +185,16 @@ def boundaryTag (cfg : Cfg) (t now : Nat) : Option String :=
 /-- one derived poll of the running instance (plus the cache GC when it is due) -/
 def pollOnce (cfg : Cfg) (e : Eng) : Eng :=
   let t := e.nextPoll
+  if e.errLeft > 0 then
+    -- `GetLatestEvents` fails: `checkEvents` returns before looking at anything, the run loop logs the
+    -- error and re-arms its timer (only the service's own context ends the loop): nothing is processed
+    -- at this tick, and the next tick comes one cadence later
+    let sys1 := advanceTo cfg e.sys t
+    let sys2 := if (t - e.start) % Gen.coordinatorCacheCleanNs = 0 then step cfg sys1 .gc else sys1
+    ({ e with sys := sys2, nextPoll := t + Gen.coordinatorCadenceNs, polls := (t, 0, e.errMode) :: e.polls,
+              errLeft := e.errLeft - 1 }.tag s!"provider-error:{e.errMode}")
+  else
+  let e := if e.errMode != "" then (e.tag s!"poll-after-provider-error:{e.errMode}") else e
   let content := e.provider ++ e.chain.map fun (ev, age, _) => { ev with conf := ev.conf + (age : Int) }
   let chain' := (e.chain.filter fun (_, _, left) => decide (left > 1)).map fun (ev, age, left) => (ev, age + 1, left - 1)
   let sys1 := advanceTo cfg e.sys t
@@ -188,7 +202,7 @@ def pollOnce (cfg : Cfg) (e : Eng) : Eng :=
   let newEntries := sys2.log.take (sys2.log.length - sys1.log.length)
   let sys3 := if (t - e.start) % Gen.coordinatorCacheCleanNs = 0 then step cfg sys2 .gc else sys2
   let e := { e with sys := sys3, ilog := newEntries ++ e.ilog, nextPoll := t + Gen.coordinatorCadenceNs,
-                    polls := (t, content.length) :: e.polls, chain := chain' }
+                    polls := (t, content.length, "") :: e.polls, chain := chain' }
   let e := content.foldl (fun (e : Eng) ev =>
     match lastWrite ev.workID sys1.log with
     | some (_, tw) => (match boundaryTag cfg tw t with | some s => e.tag ("poll-" ++ s) | none => e)
@@ -277,6 +291,7 @@ def execOp (cfg : Cfg) (utype : String → UpkeepType) (checkC07 : Bool) (e : En
     let e := if checkC07 then e else e.noteSpecI (!a || transmitOk cfg e.ilog now w b) (explainTransmit cfg e.ilog now w b)
     pure { e with nQueries := e.nQueries + 1 }
   | .events evs => pure { e with provider := evs }
+  | .perr mode n => pure { e with errMode := mode, errLeft := n }
   | .chain evs look => pure { (e.tag "provider:look-back") with chain := e.chain ++ evs.map fun ev => (ev, 0, look) }
   | .restart =>
     let sys' := step cfg e.sys .restart
@@ -384,8 +399,11 @@ def replay (checkC07 : Bool) (input impl : Json) : R Eng := do
   let answers ← listF (ansOf ids) impl "ans"
   if answers.length ≠ ops.length then throw s!"{answers.length} answers for {ops.length} ops"
   let utype := utypeFn (utypeTable ops)
-  let e0 : Eng := { sys := Sys.init, ilog := [], provider := [], start := 0,
-                    nextPoll := Gen.coordinatorCadenceNs, polls := [], tags := [] }
+  -- plugin mode with a decoy: the instance under test is created at `t0` (nothing of the decoy carries over)
+  let t0 ← asNat (fieldD input "t0" (.num 0))
+  let e0 : Eng := { sys := advanceTo cfg Sys.init t0, ilog := [], provider := [], start := t0,
+                    nextPoll := t0 + Gen.coordinatorCadenceNs, polls := [],
+                    tags := (match fieldD input "decoy" .null with | .null => [] | _ => ["plugin:decoy-first"]) }
   let mut e := e0
   let mut i := 0
   for (o, a) in ops.zip answers do
@@ -397,8 +415,12 @@ def replay (checkC07 : Bool) (input impl : Json) : R Eng := do
     i := i + 1
   e := pollTo cfg e endT
   -- derived poll schedule against the observed one
-  let obs ← listF (fun j => do pure ((← natF j "at"), (← natF j "n"))) impl "polls"
+  let obs ← listF (fun j => do pure ((← natF j "at"), (← natF j "n"), (← asStr (fieldD j "err" (.str ""))))) impl "polls"
   let want := e.polls.reverse
+  -- a running coordinator keeps polling: a failed poll is followed by the next tick's poll
+  let stopped := obs.length < want.length && decide (obs = want.take obs.length) &&
+    (match obs.getLast? with | some (_, _, err) => err != "" | none => false)
+  e := e.noteSpecI (!stopped) "event polling stopped after a provider error although the coordinator is running (no poll at the next tick)"
   e := e.noteDiff (decide (obs = want)) s!"poll schedule: model {want.length} polls, impl {obs.length}; first difference at {(want.zip obs).find? (fun p => p.1 != p.2)}"
   pure e
 
@@ -413,6 +435,10 @@ def raceReply (kind : String) (input impl : Json) : R Reply := do
   let ok := decide (lost = 0)
   let msg := if kind == "cache-race" then
       "cache: a fresh entry written during ClearExpired was deleted (scan/delete race)"
+    else if kind == "cache-read-race" then
+      "cache: a fresh entry written while a reader looked at the expired one was deleted (Get is not read-only)"
+    else if kind == "coordinator-read-race" then
+      "coordinator: a report accepted while ShouldTransmit / the filters read its expired record was forgotten (a read evicted the fresh record)"
     else if kind == "coordinator-poll-race" then
       "coordinator: an Accept issued while transmit events were processed was overwritten or overwrote the event's record (the event body's read and write are not atomic w.r.t. Accept)"
     else "coordinator: a report accepted while the cache GC ran was forgotten (scan/delete race)"
